@@ -3,7 +3,7 @@
    and completeness are checked on the implementation's traces (see DESIGN.md, C02). *)
 From Coq Require Import List ZArith NArith Bool Arith.
 Import ListNotations.
-From I2N Require Import Model.Retry Model.Traverse Model.TraverseRun Proofs.TraverseProofs Proofs.TraverseInv.
+From I2N Require Import Model.Retry Model.Traverse Model.TraverseRun Proofs.TraverseProofs Proofs.TraverseInv Proofs.TraverseAvail Proofs.TraverseExit.
 Local Open Scope nat_scope.
 
 (* no pick from an exhausted node: the loop picks a child only of a node that is not cleanup-ready
@@ -29,3 +29,26 @@ Theorem C02_dry_run_no_execution : forall g p sched evs w i u pre l,
   In evs (snd (run_schedule g (init_state g p) sched)) -> In (EStart w i u pre l) evs -> n_dry (nd g i) = false.
 Proof. intros g p sched evs w i u pre l H1 H2. pose proof (all_starts_ok g p sched evs w i u pre l H1 H2) as H. unfold startable in H. tauto. Qed.
 Print Assumptions C02_dry_run_no_execution.
+
+(* completeness for the plain single-worker configuration (one worker, no bridged copies, no unset or permanent-install
+   objects, own and shared pool in scope - simple_b, checked on every generated single-worker graph), for EVERY such graph,
+   initial pool population, schedule and outcome assignment: once the worker has left its loop, every ordinary (composite,
+   not dry, not cloned) own test that the root reaches through child edges over such tests either has results or all the
+   states it sets are visible to the worker; a stateless one (a leaf test) has results, i.e. was executed.
+   PARTIAL: one worker; "has results" is not yet "has a definite status" (a never-reported test keeps its placeholder). *)
+Theorem C02_exit_means_every_reachable_test_was_dealt_with : forall g p sched w0 c,
+  simple_b g = true -> Forall (fun x => fst x = 0) sched ->
+  let r := run_schedule g (init_state g p) sched in
+  In (EExit w0) (concat (snd r)) -> reach g c ->
+  ((forall x, In x (setstates (nd g c)) -> vis (fst r) x = true) \/ results (nst (fst r) c) <> []) /\
+  (stateful (nd g c) = false -> results (nst (fst r) c) <> []).
+Proof. exact exit_means_results. Qed.
+Print Assumptions C02_exit_means_every_reachable_test_was_dealt_with.
+
+(* ... and the worker has then dropped every own child of every such test (nothing below it is left to visit) *)
+Theorem C02_exit_means_subtree_visited : forall g p sched w0 c,
+  simple g -> Forall (fun x => fst x = 0) sched ->
+  let r := run_schedule g (init_state g p) sched in
+  In (EExit w0) (concat (snd r)) -> reach g c -> cleanup_ready g (fst r) c 0 = true.
+Proof. intros g p sched w0 c Hg Hall r Hx Hr. exact (proj1 (exit_means_done g p sched w0 c Hg Hall Hx Hr)). Qed.
+Print Assumptions C02_exit_means_subtree_visited.
